@@ -15,6 +15,7 @@ type c02Case struct {
 	Paths []*PExpr `json:"paths"`
 	Set   string   `json:"set"` // graph family: g2, g3, suite
 	Paren bool     `json:"paren,omitempty"`
+	NS    string   `json:"ns,omitempty"` // the namespace bound to prefix ex (default http://ex.org/): profile and documents are rewritten to it
 }
 
 func (p *PExpr) Skel() string {
@@ -290,7 +291,7 @@ func c02Docs(set string) []c02Doc {
 func init() {
 	Register(Meta{
 		ID: "C02", Level: "exploration",
-		Rule:        "every path AST with <=L leaves over {ex.p, ex.q, ex.p^, ex.q^, @type} with n-ary and nested sequences/alternatives, canonical layout (+ a redundantly parenthesised variant), (quick: <=2 leaves over the full alphabet and 3 leaves over {p,q,p^}) on every graph with <=E edges over 3 nodes x 2 predicates x 2 literals up to node renaming, plus a suite of collision graphs (cycle, diamond, self-loop, literal mid-path, shared values, chain of 4, complete graph, two routes); every node is a focus node. Observers: `in:[__none__]` (set of reached values) and `maxCount:0` (number of distinct values). Oracle = set-valued denotation by structural recursion. Non-trivial = (path,document) pairs where some focus node has a non-empty denotation; distinct by path text x document.",
+		Rule:        "every path AST with <=L leaves over {ex.p, ex.q, ex.p^, ex.q^, @type} with n-ary and nested sequences/alternatives, canonical layout (+ a redundantly parenthesised variant), (quick: <=2 leaves over the full alphabet and 3 leaves over {p,q,p^}) on every graph with <=E edges over 3 nodes x 2 predicates x 2 literals up to node renaming, plus a suite of collision graphs (cycle, diamond, self-loop, literal mid-path, shared values, chain of 4, complete graph, two routes); every node is a focus node; the <=2-leaf paths are repeated on the suite with the prefix bound to 5 other namespace shapes (ending in #, _, :, = or nothing). Observers: `in:[__none__]` (set of reached values) and `maxCount:0` (number of distinct values). Oracle = set-valued denotation by structural recursion. Non-trivial = (path,document) pairs where some focus node has a non-empty denotation; distinct by path text x document.",
 		Assumptions: []string{"values are IRIs or plain string literals (typed/language-tagged literals are outside the alphabet)"},
 	}, c02Gen, c02Run)
 }
@@ -318,6 +319,23 @@ func c02Gen(tier string, emit func(c02Case)) {
 	four = PathASTs(4, c02Leaves)
 	pack("suite", upto3, false)
 	pack("suite", upto3, true)
+	// the namespace bound to the prefix: ending in '#', '_', ':', '=' or in nothing at all (compact IRIs are plain
+	// concatenation); every path with <=2 leaves on the suite
+	{
+		var upto2 []*PExpr
+		for n := 1; n <= 2; n++ {
+			upto2 = append(upto2, PathASTs(n, c02Leaves)...)
+		}
+		for _, ns := range []string{"http://ex.org/ns#", "http://ex.org/RO_", "urn:ex:", "http://ex.org/ns", "http://ex.org/v?x="} {
+			for i := 0; i < len(upto2); i += 2 * c02Pack {
+				j := i + 2*c02Pack
+				if j > len(upto2) {
+					j = len(upto2)
+				}
+				emit(c02Case{Paths: upto2[i:j], Set: "suite", NS: ns})
+			}
+		}
+	}
 	if tier == "thorough" {
 		pack("g2", upto3, false)
 	} else {
@@ -403,21 +421,28 @@ func traceActuals(r Result) []any {
 
 func c02Run(c *Ctx, cs c02Case) {
 	prof := c02Profile(cs.Paths, cs.Paren)
+	toNS := func(x string) string { return x }
+	fromNS := toNS
+	if cs.NS != "" {
+		toNS = func(x string) string { return strings.ReplaceAll(x, EX, cs.NS) }
+		fromNS = func(x string) string { return strings.ReplaceAll(x, cs.NS, EX) }
+		prof = toNS(prof)
+	}
 	q, cr := Compile(prof)
 	if cr.Panic != nil || cr.Err != nil {
 		// find the culprit path
 		for _, p := range cs.Paths {
-			if _, r1 := Compile(c02Profile([]*PExpr{p}, cs.Paren)); r1.Panic != nil || r1.Err != nil {
-				c.Violate("C02 path rejected shape="+p.Skel()+": "+firstLine(r1.ErrString()), "path "+p.Render()+"\n"+r1.ErrString(), c02Case{Paths: []*PExpr{p}, Set: cs.Set, Paren: cs.Paren})
+			if _, r1 := Compile(toNS(c02Profile([]*PExpr{p}, cs.Paren))); r1.Panic != nil || r1.Err != nil {
+				c.Violate("C02 path rejected shape="+p.Skel()+": "+firstLine(r1.ErrString()), "path "+p.Render()+"\n"+r1.ErrString(), c02Case{Paths: []*PExpr{p}, Set: cs.Set, Paren: cs.Paren, NS: cs.NS})
 			}
 		}
 		return
 	}
 	for _, doc := range c02Docs(cs.Set) {
-		res := ValidateCompiled(q, doc.data)
+		res := ValidateCompiled(q, toNS(doc.data))
 		c.Eval(1)
 		if res.Panic != nil || res.Err != nil {
-			c.Violate("C02 validation failed: "+firstLine(res.ErrString()), prof+"\n"+doc.data, nil)
+			c.Violate("C02 validation failed: "+firstLine(res.ErrString()), prof+"\n"+toNS(doc.data), nil)
 			return
 		}
 		rep, err := ParseReport(res.Report)
@@ -443,11 +468,11 @@ func c02Run(c *Ctx, cs c02Case) {
 			if len(r.Shape) < 2 {
 				continue
 			}
-			k := r.Shape[1:] + "|" + r.Focus
+			k := r.Shape[1:] + "|" + fromNS(r.Focus)
 			for _, a := range traceActuals(r) {
 				if r.Shape[0] == 'a' {
 					if s, ok := a.(string); ok {
-						get(k).vals[s] = true
+						get(k).vals[fromNS(s)] = true
 					} else {
 						get(k).vals[fmt.Sprint(a)] = true
 					}
@@ -479,8 +504,11 @@ func c02Run(c *Ctx, cs c02Case) {
 					o = &obs{vals: map[string]bool{}}
 				}
 				if !setEq(o.vals, expVals) || o.count != expCount {
-					one := c02Case{Paths: []*PExpr{p}, Set: cs.Set, Paren: cs.Paren}
+					one := c02Case{Paths: []*PExpr{p}, Set: cs.Set, Paren: cs.Paren, NS: cs.NS}
 					sig := "C02 denotation mismatch"
+					if cs.NS != "" {
+						sig = "C02 denotation mismatch under another namespace shape"
+					}
 					switch {
 					case !setEq(o.vals, expVals):
 						miss, extra := diffSets(expVals, o.vals)
@@ -508,6 +536,6 @@ func c02Run(c *Ctx, cs c02Case) {
 			}
 		}
 	}
-	c.Outcome(fmt.Sprintf("set=%s leaves=%d", cs.Set, cs.Paths[0].Leaves()))
+	c.Outcome(fmt.Sprintf("set=%s leaves=%d ns=%s", cs.Set, cs.Paths[0].Leaves(), cs.NS))
 	c.Sample(map[string]any{"path": cs.Paths[0].Render(), "set": cs.Set})
 }
